@@ -42,7 +42,7 @@ ASSUMPTIONS = [
     "document order of children is taken from source offsets of the parsed tree (parser checked by C08/C09)",
 ]
 
-ACTIONS = ["skip", "remove", "replace", "break", "replace_str"]
+ACTIONS = ["skip", "remove", "replace", "break", "replace_str", "replace_kind"]
 
 
 def make_visitor(script, id_map, root, log, problems, style_kinds=(), observer=None):
@@ -65,6 +65,8 @@ def make_visitor(script, id_map, root, log, problems, style_kinds=(), observer=N
             return REMOVE
         if a == "replace":
             return R3.copy_with_change(node)
+        if a == "replace_kind":
+            return R3.other_kind(node) or R3.copy_with_change(node)
         if a == "replace_str":
             return "X"
         return None
@@ -88,7 +90,7 @@ def make_visitor(script, id_map, root, log, problems, style_kinds=(), observer=N
         except Exception as e:  # noqa: BLE001
             problems.append(f"enter {node.kind}: position arguments invalid: {e!r}")
         a = script.get(("enter", idx), "idle")
-        if a in ("idle", "replace"):
+        if a in ("idle", "replace", "replace_kind"):
             stack.append(idx)
         return act(a, node)
 
@@ -103,8 +105,13 @@ def make_visitor(script, id_map, root, log, problems, style_kinds=(), observer=N
 
     ns = {"enter": enter, "leave": leave}
     for k in style_kinds:
-        ns["enter_" + k] = enter
-        ns["leave_" + k] = leave
+        # "field": both directions kind-specific; "field:enter" / "field:leave": one direction only, the other
+        # one falls back to the generic handler
+        k, _, side = k.partition(":")
+        if side != "leave":
+            ns["enter_" + k] = enter
+        if side != "enter":
+            ns["leave_" + k] = leave
     cls = type("ScriptedVisitor", (Visitor,), ns)
     return cls()
 
@@ -196,7 +203,7 @@ def eval_case(case):
         bad("position-arguments", p, cls)
     if g1.sig(root) != before or [id(x) for x in R3.preorder(root, twin)] != [id(x) for x in nodes]:
         bad("input-mutated", "the input tree changed", cls)
-    edits = [a for a in script.values() if a in ("remove", "replace", "replace_str")]
+    edits = [a for a in script.values() if a in ("remove", "replace", "replace_str", "replace_kind")]
     if not broke and log == exp_log:
         root_removed = exp_res is R3.REMOVED
         if not root_removed:
@@ -280,8 +287,8 @@ def g_case(c):
     nsteps = c.count(0, 4)
     script = []
     for _ in range(nsteps):
-        a = c.choose(["skip", "remove", "replace", "break", "replace_str", "remove", "replace"])
-        ph = "enter" if (a == "skip" or c.chance(128)) else "leave"
+        a = c.choose(["skip", "remove", "replace", "break", "replace_str", "remove", "replace", "replace_kind"])
+        ph = "enter" if (a == "skip" or c.chance(128 if a != "replace_kind" else 200)) else "leave"
         script.append([ph, c.pick(400) if c.chance(200) else 0, a])
     par = []
     if c.chance(90):
@@ -290,7 +297,7 @@ def g_case(c):
                          c.choose(["skip", "skip", "break"])] for _ in range(c.count(0, 3))])
     style = [c.choose(["field", "name", "selection_set", "document", "operation_definition",
                        "directive", "argument", "named_type", "string_value", "list_value",
-                       "object_type_definition", "variable", "inline_fragment"])
+                       "object_type_definition", "variable", "inline_fragment"]) + c.choose(["", "", ":enter", ":leave"])
              for _ in range(c.count(0, 3))] if c.chance(100) else []
     return {"tree": tree, "lay": c.ints(6), "no_location": c.chance(70), "script": script,
             "parallel": par, "style": style}
@@ -415,7 +422,7 @@ def eval_typeinfo(case):
     ti = TypeInfo(schema)
     initial = R9.observe(ti)
     seen = []
-    replaced_on_enter = any(ph == "enter" and a == "replace" for (ph, _i), a in script.items())
+    replaced_on_enter = any(ph == "enter" and a in ("replace", "replace_kind") for (ph, _i), a in script.items())
     inner = make_visitor(script, id_map, root, log, problems, case.get("style", []),
                          observer=lambda ph, node: seen.append((ph, id(node), node.kind, R9.observe(ti))))
     try:
@@ -467,11 +474,11 @@ def g_typeinfo_case(c):
     nsteps = c.count(0, 4)
     script = []
     for _ in range(nsteps):
-        a = c.choose(["skip", "skip", "remove", "replace", "break", "replace_str", "remove", "skip"])
+        a = c.choose(["skip", "skip", "remove", "replace", "break", "replace_str", "remove", "skip", "replace_kind"])
         ph = "enter" if (a == "skip" or c.chance(150)) else "leave"
         script.append([ph, c.pick(600), a])
     style = [c.choose(["field", "name", "selection_set", "argument", "directive", "variable",
-                       "inline_fragment", "fragment_spread", "list_value", "object_field"])
+                       "inline_fragment", "fragment_spread", "list_value", "object_field"]) + c.choose(["", ":enter", ":leave"])
              for _ in range(c.count(0, 2))] if c.chance(80) else []
     return {"model": dict(m), "tree": tree, "lay": c.ints(4) if c.chance(60) else [],
             "no_location": c.chance(70), "script": script, "style": style, "stratum": stratum}
